@@ -40,6 +40,12 @@ extern "C" void h_rawrecord(void) {
     try {
         Opm::RawRecord rec(std::string_view(in), Opm::KeywordLocation{});
         unsigned long n = rec.size(); CHECK(n <= HN);
+        // the parser asks INCLUDE and PATHS records for item 0 and item 1 without looking at size(): a missing item is an exception, nothing worse
+        for (unsigned long k = 0; k < 3; ++k) {
+            try { auto t = rec.getItem(k); CHECK(k < n); CHECK(t.data() >= in.data() && t.data() + t.size() <= in.data() + in.size() + 1); }
+            catch (const std::exception&) { CHECK(k >= n); }
+        }
+        if (n) { auto f = rec.front(); CHECK(f.data() == rec.getItem(0).data() && f.size() == rec.getItem(0).size()); }
         while (rec.size()) { auto t = rec.pop_front(); CHECK(t.data() >= in.data() && t.data() + t.size() <= in.data() + in.size() + 1); CHECK(t.size() > 0); }
     } catch (const std::exception&) { }
 }
